@@ -114,6 +114,32 @@ pub fn run(ctx: &Ctx) -> Report {
         })
         .reduce(Acc::default, |a, b| a.merge(b));
     let acc = acc.merge(acc_types);
+    // (2b) declared-length sweep: every 16-bit value in the length field of an attribute header - of a
+    // SOFTWARE, a USERNAME, an unknown and each sealing attribute, first / after another attribute, with
+    // 0 / 8 / 40 bytes really following - inside a message whose own length field is consistent
+    let acc_lens = (0..=0xFFFFu32)
+        .into_par_iter()
+        .fold(Acc::default, |mut acc, l| {
+            for typ in [0x8022u16, 0x0006, 0x7F31, 0x0008, 0x001C, 0x8028] {
+                for (lead, present) in [(false, 0usize), (false, 8), (true, 8), (false, 40), (true, 0)] {
+                    let mut b = wire::encode_header(c0, m0, t0, 0);
+                    if lead {
+                        wire::append_raw(&mut b, 0x0024, &[0, 0, 0, 9]);
+                    }
+                    b.extend_from_slice(&typ.to_be_bytes());
+                    b.extend_from_slice(&(l as u16).to_be_bytes());
+                    b.extend((0..present).map(|i| 0x30 + (i as u8 % 10)));
+                    let bl = b.len() - 20;
+                    wire::set_len(&mut b, bl);
+                    let case = Case::new("parse", b).text(&["declared-length-sweep"]);
+                    acc.nontrivial += 1;
+                    judge_guarded(judge, &case, &mut acc);
+                }
+            }
+            acc
+        })
+        .reduce(Acc::default, |a, b| a.merge(b));
+    let acc = acc.merge(acc_lens);
     // (3) large messages: one big attribute followed by every tail over {MI, MI256, FP ok, FP bad, OPT}
     //     of length <= 2, so that the tail ends at every multiple of four in 65 480..=65 552 and
     //     around 255/256, 4 095/4 096 and 32 767/32 768; plus declared-length perturbations and
@@ -329,7 +355,7 @@ pub fn run(ctx: &Ctx) -> Report {
     Report {
         acc,
         exhaustive: true,
-        rule: "all attribute skeletons over {OPT,SW x len 0/1/3/4, MI, MI256, FP ok, FP bad} to the stated depth x 4 header variants (one per class); on each: every cut point, header-length perturbation, excess variant, per-attribute length perturbation, top bits, every cookie bit, non-zero padding; on skeletons of <= 3 attributes (thorough 4) also every value of every type/length byte of the header and of each attribute header and every single-bit flip of buffers up to 64 bytes; plus every 16-bit attribute type (value length 0 and 5) at each position of 10 templates around MI / MI256 / FP; large messages (one big attribute + every tail of <= 2 sealing attributes, ending at every multiple of 4 in 65480..=65552 and around 256 / 4096 / 32768) and values that look like sealing-attribute headers, each with header-length perturbations and cuts; all 16 384 (class, method) pairs x four small bodies x six variants; messages with 1..=200 / 1000 / 4000 / 16000 attributes; well-formed messages behind framing headers (2- and 4-byte lengths, ChannelData, TLS record, CR LF) and twice in a row; messages with two / three occurrences of each built-in type (valid, other valid, refused value, every order); typed lookups compared with the typed decoding of the first occurrence on every accepted message; distinct_nontrivial counts fault-free skeleton buffers".into(),
+        rule: "every 16-bit value in the length field of an attribute header (six types x five layouts, message length consistent); all attribute skeletons over {OPT,SW x len 0/1/3/4, MI, MI256, FP ok, FP bad} to the stated depth x 4 header variants (one per class); on each: every cut point, header-length perturbation, excess variant, per-attribute length perturbation, top bits, every cookie bit, non-zero padding; on skeletons of <= 3 attributes (thorough 4) also every value of every type/length byte of the header and of each attribute header and every single-bit flip of buffers up to 64 bytes; plus every 16-bit attribute type (value length 0 and 5) at each position of 10 templates around MI / MI256 / FP; large messages (one big attribute + every tail of <= 2 sealing attributes, ending at every multiple of 4 in 65480..=65552 and around 256 / 4096 / 32768) and values that look like sealing-attribute headers, each with header-length perturbations and cuts; all 16 384 (class, method) pairs x four small bodies x six variants; messages with 1..=200 / 1000 / 4000 / 16000 attributes; well-formed messages behind framing headers (2- and 4-byte lengths, ChannelData, TLS record, CR LF) and twice in a row; messages with two / three occurrences of each built-in type (valid, other valid, refused value, every order); typed lookups compared with the typed decoding of the first occurrence on every accepted message; distinct_nontrivial counts fault-free skeleton buffers".into(),
         bounds: json!({"skeletons": n_sk, "full_alphabet_depth": n_full, "small_alphabet_depth": n_small, "header_variants": 4, "faults": "single"}),
         assumptions: vec!["buffers outside the grammar alphabets and with two or more independent faults are not explored".into()],
         ..Default::default()
